@@ -5,6 +5,7 @@ Ties: (a) the REAL $externalize/$internalize/$externalizeFunction/$makeFunc and 
 Node vs the Lean driver (model) and the Lean spec; (b) self-checking compiled programs using every js.Object accessor,
 expected values computed by the model; (c) the callback-guard witness on the real prelude and in a compiled program."""
 import json
+import re
 from . import common as C
 
 THEOREMS = [
@@ -406,7 +407,9 @@ class ValGen(Gen):
             return r.choice([self.js_num(), self.js_num(), self.int_val(n), self.js_str(), "t", "jo()"])
         if n in ("TI64", "TU64"):
             return r.choice([self.js_num(), self.js_num(), "t", "f"])
-        if n in ("Tf32", "Tf64"):
+        if n == "Tf32":     # may end up in a Float32Array: only float32-representable numbers (evidence assumption)
+            return r.choice([self.float_val(n), self.float_val(n), "n%d" % r.randrange(-2 ** 24, 2 ** 24), "t", "w0037", "w002d00310032"])
+        if n == "Tf64":
             return r.choice([self.float_val(n), self.float_val(n), self.js_num(), self.js_str(), "t"])
         if n == "Ts":
             return r.choice([self.js_str(), self.js_str(), self.js_str(), self.js_num(), "t", "jo()"])
@@ -720,8 +723,568 @@ def run(tier, seed):
     return chk.finish()
 
 
+# ---------------------------------------------------------------------------------------------------------------
+# compiled programs
+# ---------------------------------------------------------------------------------------------------------------
+
+GO_SCALAR = {"Tb": "bool", "Ti": "int", "Ti8": "int8", "Ti16": "int16", "Ti32": "int32", "Tu": "uint", "Tu8": "uint8", "Tu16": "uint16",
+             "Tu32": "uint32", "Tup": "uintptr", "TI64": "int64", "TU64": "uint64", "Tf32": "float32", "Tf64": "float64", "Ts": "string"}
+
+
+def go_str(bs):
+    return '"' + "".join("\\x%02x" % b for b in bs) + '"'
+
+
+def unhex(h):
+    return b"" if h == "-" else bytes.fromhex(h)
+
+
+def go_type(T):
+    n, a = T
+    if n in GO_SCALAR:
+        return GO_SCALAR[n]
+    if n == "TS":
+        return "[]" + go_type(a[0])
+    if n == "TA":
+        return "[%s]%s" % (a[0][0], go_type(a[1]))
+    if n == "TM":
+        return "map[string]" + go_type(a[0])
+    if n == "TT":
+        return "struct{" + "; ".join("%s %s" % (unhex(a[i][0][1:]).decode(), go_type(a[i + 1])) for i in range(0, len(a), 2)) + "}"
+    raise ValueError(n)
+
+
+def go_num(T, x):
+    gt = GO_SCALAR[T]
+    if x in ("nz", "nan", "pinf", "ninf"):
+        return "%s(%s)" % (gt, {"nz": "negz", "nan": "nan", "pinf": "pinf", "ninf": "ninf"}[x])
+    if x[0] == "n":
+        v = int(x[1:])
+        if T in ("Tf32", "Tf64"):
+            return "%s(%d.0)" % (gt, v)
+        return "%s(%d)" % (gt, v)
+    tok, tr, neg = x[1:].split("_")
+    mag = abs(int(tr)) * 1024 + int(tok) + 1
+    return "%s(%s%d.0/1024)" % (gt, "-" if neg == "1" else "", mag)
+
+
+def go_lit(T, v):
+    n, a = T
+    vn, va = v
+    if n == "Tb":
+        return "true" if vn == "t" else "false"
+    if n in ("TI64", "TU64"):
+        hi, lo = vn[1:].split("_")
+        return "%s(%d)" % (GO_SCALAR[n], int(hi) * 2 ** 32 + int(lo))
+    if n == "Ts":
+        return go_str(unhex(vn[1:]))
+    if n in GO_SCALAR:
+        return go_num(n, vn)
+    if vn == "nil":
+        return "(%s)(nil)" % go_type(T)
+    if n == "TS":
+        return "%s{%s}" % (go_type(T), ", ".join(go_lit(a[0], x) for x in va))
+    if n == "TA":
+        return "%s{%s}" % (go_type(T), ", ".join(go_lit(a[1], x) for x in va))
+    if n == "TM":
+        return "%s{%s}" % (go_type(T), ", ".join("%s: %s" % (go_str(unhex(va[i][0][1:])), go_lit(a[0], va[i + 1])) for i in range(0, len(va), 2)))
+    if n == "TT":
+        return "%s{%s}" % (go_type(T), ", ".join(go_lit(a[2 * i + 1], x) for i, x in enumerate(va)))
+    raise ValueError(n)
+
+
+def js_lit(x):
+    n, a = x
+    if n == "u":
+        return "undefined"
+    if n == "null":
+        return "null"
+    if n in ("t", "f"):
+        return "true" if n == "t" else "false"
+    if n == "ja":
+        return "[" + ",".join(js_lit(y) for y in a) + "]"
+    if n == "jo":
+        return "({" + ",".join("%s:%s" % (js_lit(a[i]), js_lit(a[i + 1])) for i in range(0, len(a), 2)) + "})"
+    if n.startswith("ta_"):
+        cls = {"i8": "Int8Array", "i16": "Int16Array", "i32": "Int32Array", "u8": "Uint8Array", "u16": "Uint16Array", "u32": "Uint32Array",
+               "f32": "Float32Array", "f64": "Float64Array"}[n[3:]]
+        return "new %s([%s])" % (cls, ",".join(js_lit(y) for y in a))
+    if n[0] == "w":
+        h = n[1:]
+        return '"' + ("" if h == "-" else "".join("\\u" + h[i:i + 4] for i in range(0, len(h), 4))) + '"'
+    if n in ("nz", "nan", "pinf", "ninf"):
+        return {"nz": "-0", "nan": "NaN", "pinf": "Infinity", "ninf": "-Infinity"}[n]
+    if n[0] == "n":
+        return "(%s)" % n[1:]
+    tok, tr, neg = n[1:].split("_")
+    return "(%s%d/1024)" % ("-" if neg == "1" else "", abs(int(tr)) * 1024 + int(tok) + 1)
+
+
+JS_SHOW = """(function(){
+function hex4(n){return (n+0x10000).toString(16).slice(1);}
+function u16(s){if(s.length===0)return '-';var h='';for(var i=0;i<s.length;i++)h+=hex4(s.charCodeAt(i));return h;}
+function num(x){if(x!==x)return 'nan';if(x===Infinity)return 'pinf';if(x===-Infinity)return 'ninf';if(Object.is(x,-0))return 'nz';
+ if(Number.isInteger(x))return 'n'+BigInt(x).toString();var neg=x<0,a=Math.abs(x),tr=Math.floor(a),tok=(a-tr)*1024-1;
+ return 'q'+tok+'_'+(neg?(tr===0?'0':'-'+tr):String(tr))+'_'+(neg?1:0);}
+var TA={i8:Int8Array,i16:Int16Array,i32:Int32Array,u8:Uint8Array,u16:Uint16Array,u32:Uint32Array,f32:Float32Array,f64:Float64Array};
+function show(v){if(v===undefined)return 'u';if(v===null)return 'null';
+ switch(typeof v){case 'boolean':return v?'t':'f';case 'number':return num(v);case 'string':return 'w'+u16(v);case 'function':return 'jf?';}
+ for(var c in TA)if(v.constructor===TA[c])return 'ta_'+c+'('+Array.from(v).map(num).join(',')+')';
+ if(Array.isArray(v))return 'ja('+v.map(show).join(',')+')';
+ var ks=Object.keys(v).sort(function(a,b){var n=Math.min(a.length,b.length);for(var i=0;i<n;i++){var d=a.charCodeAt(i)-b.charCodeAt(i);if(d)return d;}return a.length-b.length;});
+ var out=[];ks.forEach(function(k){out.push('w'+u16(k));out.push(show(v[k]));});return 'jo('+out.join(',')+')';}
+return show;})()"""
+
+GO_HELPERS = """
+var zero float64
+var negz = math.Copysign(0, -1)
+var nan = math.NaN()
+var pinf = math.Inf(1)
+var ninf = math.Inf(-1)
+
+func itoa(n int64) string {
+	if n == 0 {
+		return "0"
+	}
+	neg := n < 0
+	var b []byte
+	for n != 0 {
+		d := n % 10
+		if d < 0 {
+			d = -d
+		}
+		b = append([]byte{byte('0' + d)}, b...)
+		n /= 10
+	}
+	if neg {
+		return "-" + string(b)
+	}
+	return string(b)
+}
+
+const hexdigits = "0123456789abcdef"
+
+func hexs(s string) string {
+	if len(s) == 0 {
+		return "-"
+	}
+	b := make([]byte, 0, 2*len(s))
+	for i := 0; i < len(s); i++ {
+		b = append(b, hexdigits[s[i]>>4], hexdigits[s[i]&15])
+	}
+	return string(b)
+}
+
+func num(x float64) string {
+	switch {
+	case x != x:
+		return "nan"
+	case x > 1.7e308:
+		return "pinf"
+	case x < -1.7e308:
+		return "ninf"
+	case x == 0 && 1/x < 0:
+		return "nz"
+	}
+	if x == math.Floor(x) && x >= -9.2e18 && x <= 9.2e18 {
+		return "n" + itoa(int64(x))
+	}
+	if x == math.Floor(x) {
+		return "nbig"
+	}
+	neg := x < 0
+	a := math.Abs(x)
+	tr := math.Floor(a)
+	tok := (a-tr)*1024 - 1
+	s := "q" + itoa(int64(tok)) + "_"
+	if neg && tr != 0 {
+		s += "-"
+	}
+	s += itoa(int64(tr)) + "_"
+	if neg {
+		return s + "1"
+	}
+	return s + "0"
+}
+
+func join(xs []string) string {
+	s := ""
+	for i, x := range xs {
+		if i > 0 {
+			s += ","
+		}
+		s += x
+	}
+	return s
+}
+
+func nums(n int, at func(int) float64) string {
+	out := []string{}
+	for i := 0; i < n; i++ {
+		out = append(out, num(at(i)))
+	}
+	return join(out)
+}
+
+func show(v interface{}) string {
+	switch x := v.(type) {
+	case nil:
+		return "nil"
+	case bool:
+		if x {
+			return "if(Tb,t)"
+		}
+		return "if(Tb,f)"
+	case float64:
+		return "if(Tf64," + num(x) + ")"
+	case string:
+		return "if(Ts,s" + hexs(x) + ")"
+	case []interface{}:
+		out := []string{}
+		for _, e := range x {
+			out = append(out, show(e))
+		}
+		return "if(TS(TE),sl(" + join(out) + "))"
+	case map[string]interface{}:
+		keys := []string{}
+		for k := range x {
+			keys = append(keys, k)
+		}
+		for i := 1; i < len(keys); i++ {
+			for j := i; j > 0 && keys[j] < keys[j-1]; j-- {
+				keys[j], keys[j-1] = keys[j-1], keys[j]
+			}
+		}
+		out := []string{}
+		for _, k := range keys {
+			out = append(out, "s"+hexs(k), show(x[k]))
+		}
+		return "if(TM(TE),mp(" + join(out) + "))"
+	case []int8:
+		return "if(TS(Ti8),sl(" + nums(len(x), func(i int) float64 { return float64(x[i]) }) + "))"
+	case []int16:
+		return "if(TS(Ti16),sl(" + nums(len(x), func(i int) float64 { return float64(x[i]) }) + "))"
+	case []int:
+		return "if(TS(Ti),sl(" + nums(len(x), func(i int) float64 { return float64(x[i]) }) + "))"
+	case []uint8:
+		return "if(TS(Tu8),sl(" + nums(len(x), func(i int) float64 { return float64(x[i]) }) + "))"
+	case []uint16:
+		return "if(TS(Tu16),sl(" + nums(len(x), func(i int) float64 { return float64(x[i]) }) + "))"
+	case []uint:
+		return "if(TS(Tu),sl(" + nums(len(x), func(i int) float64 { return float64(x[i]) }) + "))"
+	case []float32:
+		return "if(TS(Tf32),sl(" + nums(len(x), func(i int) float64 { return float64(x[i]) }) + "))"
+	case []float64:
+		return "if(TS(Tf64),sl(" + nums(len(x), func(i int) float64 { return x[i] }) + "))"
+	case *js.Object:
+		if x == js.Undefined {
+			return "if(TO,ob(u))"
+		}
+		return "if(TO,ob(?))"
+	}
+	return "?"
+}
+"""
+
+PROG_HEAD = "package main\n\nimport (\n\t\"math\"\n\n\t\"github.com/gopherjs/gopherjs/js\"\n)\n" + GO_HELPERS
+
+
+def prog_ext(cases):
+    """P1: Go values handed to a JavaScript probe through Invoke; the probe renders what arrived."""
+    body = "\n".join("\tprintln(probe.Invoke(%s).String())" % go_lit(parse_sx(T), parse_sx(v)) for (T, v) in cases)
+    return PROG_HEAD + "\nfunc main() {\n\t_ = zero\n\tprobe := js.Global.Call(\"eval\", %s)\n%s\n}\n" % (go_str(JS_SHOW.encode()), body)
+
+
+def prog_iface(cases):
+    """P2: JavaScript values built by eval, read back with Interface()."""
+    body = "\n".join("\tprintln(show(js.Global.Call(\"eval\", %s).Interface()))" % go_str(("(" + js_lit(parse_sx(j)) + ")").encode()) for j in cases)
+    return PROG_HEAD + "\nfunc main() {\n\t_, _, _, _ = negz, nan, pinf, ninf\n%s\n}\n" % body
+
+
+ACCESSORS = PROG_HEAD + """
+type T struct {
+	*js.Object
+	Name  string        `js:"name"`
+	Count int           `js:"count"`
+	Ratio float64       `js:"ratio"`
+	Big   int64         `js:"big"`
+	Tags  []string      `js:"tags"`
+	Fn    func(int) int `js:"fn"`
+}
+
+type W struct{ n int }
+
+func (w *W) Add(k int) int { w.n += k; return w.n }
+func (w *W) Name() string   { return "w\\xc3\\xa9\\xf0\\x9f\\x98\\x80" }
+func (w *W) hidden() int    { return 1 }
+
+func b2s(b bool) string {
+	if b {
+		return "true"
+	}
+	return "false"
+}
+
+func main() {
+	_, _ = pinf, ninf
+	ev := func(s string) *js.Object { return js.Global.Call("eval", s) }
+	o := js.Global.Get("Object").New()
+	// Set / Get with every scalar kind, Bool/String/Int/Int64/Uint64/Float accessors
+	o.Set("b", true)
+	o.Set("i", -2147483648)
+	o.Set("u8", uint8(255))
+	o.Set("i64", int64(-9007199254740992))
+	o.Set("u64", uint64(9007199254740992))
+	o.Set("f", 1.5)
+	o.Set("nz", negz)
+	o.Set("nan", nan)
+	o.Set("s", "h\\xc3\\xa9\\xf0\\x9f\\x98\\x80\\xff")
+	println("get.b", b2s(o.Get("b").Bool()))
+	println("get.i", o.Get("i").Int())
+	println("get.u8", o.Get("u8").Int())
+	println("get.i64", itoa(o.Get("i64").Int64()))
+	println("get.u64", itoa(int64(o.Get("u64").Uint64())))
+	println("get.f", num(o.Get("f").Float()))
+	println("get.nz", num(o.Get("nz").Float()))
+	println("get.nan", num(o.Get("nan").Float()))
+	println("get.s", hexs(o.Get("s").String()))
+	println("js.s", ev("(function(o){var s=o.s,h='';for(var i=0;i<s.length;i++)h+=s.charCodeAt(i).toString(16)+'.';return h;})").Invoke(o).String())
+	println("js.typeof", ev("(function(o){return [typeof o.b,typeof o.i,typeof o.i64,typeof o.f,typeof o.s,Object.is(o.nz,-0),o.i64,o.u64].join()})").Invoke(o).String())
+	o.Delete("b")
+	println("deleted", b2s(o.Get("b") == js.Undefined))
+	println("keys", join(js.Keys(o)))
+	// non-constant property names go through $externalize(key, $String)
+	key := "k\\xc3\\xa9y"
+	o.Set(key, 7)
+	println("get.key", o.Get(key).Int(), ev("(function(o){return o['k\\u00e9y']})").Invoke(o).Int())
+	// arrays: Index / SetIndex / Length
+	a := js.Global.Get("Array").New(3)
+	a.SetIndex(0, "x")
+	a.SetIndex(1, []int8{-1, 2})
+	a.SetIndex(2, map[string]interface{}{"p": []interface{}{1, "q", nil}})
+	println("len", a.Length())
+	println("idx0", a.Index(0).String())
+	println("idx1", show(a.Index(1).Interface()))
+	println("idx2", show(a.Index(2).Interface()))
+	println("idx9", b2s(a.Index(9) == js.Undefined))
+	// Call / Invoke / New with converted arguments and results
+	println("call", b2s(js.Global.Get("Math").Call("max", 3, 7.5, int64(6)).Float() == 7.5))
+	println("call.str", b2s(js.Global.Get("String").Call("fromCharCode", 0xd83d, 0xde00).String() == "\\xf0\\x9f\\x98\\x80"))
+	println("invoke", b2s(ev("(function(a,b){return a+b})").Invoke("a\\xc3\\xa9", "b").String() == "a\\xc3\\xa9b"))
+	println("new", js.Global.Get("Array").New(1, 2, 3).Length())
+	println("variadic", js.Global.Get("Math").Call("max", []interface{}{1, 9, 4}...).Int())
+	// Int on out-of-range and non-numeric values (parseInt, then >> 0)
+	println("int.big", ev("4294967301").Int(), ev("'12px'").Int(), ev("undefined").Int(), ev("1e21").Int(), ev("-1.9").Int())
+	println("int64", itoa(ev("9007199254740993").Int64()), itoa(ev("-1").Int64()), itoa(int64(ev("18446744073709551615").Uint64())))
+	println("unsafe", b2s(o.Unsafe() != 0))
+	// Interface() of every class
+	println("iface", show(ev("[true, 1.5, 'x', null, undefined, [1], {a: 1}, new Uint8Array([1,2]), new Float64Array([1.5])]").Interface()))
+	println("iface.fn", ev("(function(a,b){return a*b})").Interface().(func(...interface{}) *js.Object)(6, 7).Int())
+	// js-tagged struct fields
+	t := &T{Object: js.Global.Get("Object").New()}
+	t.Name = "n\\xc3\\xa9"
+	t.Count = 41
+	t.Count++
+	t.Ratio = 0.25
+	t.Big = 1 << 40
+	t.Tags = []string{"a", "\\xf0\\x9f\\x98\\x80"}
+	t.Fn = func(x int) int { return x * 2 }
+	println("tag", hexs(t.Name), t.Count, num(t.Ratio), itoa(t.Big), len(t.Tags), hexs(t.Tags[1]), t.Fn(21))
+	println("tag.js", hexs(ev("(function(o){return [o.name,o.count,o.ratio,o.big,o.tags.length,o.tags[1].length,o.fn(5),Object.keys(o).sort().join('|')].join()})").Invoke(t).String()))
+	// a struct wrapping a *js.Object externalizes to that object
+	println("wrapobj", b2s(ev("(function(a,b){return a===b})").Invoke(t, t.Object).Bool()))
+	// MakeFunc: this / arguments / converted result
+	mf := js.MakeFunc(func(this *js.Object, args []*js.Object) interface{} {
+		return map[string]interface{}{"n": len(args), "first": args[0], "this": this.Get("tag")}
+	})
+	println("makefunc", ev("(function(f){var r=f.call({tag:'T'},10,20);return [r.n,r.first,r['this']].join()})").Invoke(mf).String())
+	// MakeWrapper: exported methods only, __internal_object__ round trip
+	w := &W{n: 1}
+	mw := js.MakeWrapper(w)
+	println("wrapper", ev("(function(w){return [w.Add(4),w.Add(5),w.Name().length,typeof w.hidden,Object.keys(w).sort().join('|')].join()})").Invoke(mw).String())
+	println("wrapper.back", b2s(mw.Interface().(*W) == w), w.n)
+	// exposed functions: converted parameters and results, same JavaScript function every time
+	f := func(a int8, s string, xs []float64, m map[string]int) (int, string) {
+		return int(a) + len(xs) + len(m), s + "!"
+	}
+	js.Global.Set("gf", f)
+	js.Global.Set("gf2", f)
+	println("expose", ev("(function(){var r=gf(300,'\\\\u00e9\\\\ud83d\\\\ude00',[1,2],{a:1});return [r[0],r[1].length,gf===gf2].join()})()").String())
+	o.Set("f1", f)
+	o.Set("arr", []interface{}{f})
+	println("stable", b2s(ev("(function(o){return o.f1===gf && o.arr[0]===gf})").Invoke(o).Bool()))
+	// struct / map / slice externalization seen from JavaScript
+	type P struct {
+		A int
+		B string
+		c int
+		D []uint16
+		E map[string]bool
+	}
+	println("struct.js", ev("(function(p){return JSON.stringify(p)+'|'+p.D.constructor.name})").Invoke(P{1, "x", 3, []uint16{65535}, map[string]bool{"k": true}}).String())
+	println("nilslice", b2s(ev("(function(a,b,c){return a===null&&b===null&&c===null})").Invoke([]int(nil), map[string]int(nil), (*P)(nil)).Bool()))
+	_ = zero
+}
+"""
+
+# what the js package documentation and the model predict for ACCESSORS (line by line)
+ACCESSORS_EXPECT = [
+    "get.b true", "get.i -2147483648", "get.u8 255", "get.i64 -9007199254740992", "get.u64 9007199254740992", "get.f q511_1_0", "get.nz nz",
+    "get.nan nan", "get.s 68c3a9f09f9880efbfbd", "js.s 68.e9.d83d.de00.fffd.",
+    "js.typeof boolean,number,number,number,string,true,-9007199254740992,9007199254740992",
+    "deleted true", "keys i,u8,i64,u64,f,nz,nan,s", "get.key 7 7", "len 3", "idx0 x", "idx1 if(TS(Ti8),sl(n-1,n2))",
+    "idx2 if(TM(TE),mp(s70,if(TS(TE),sl(if(Tf64,n1),if(Ts,s71),nil))))", "idx9 true", "call true", "call.str true", "invoke true", "new 3", "variadic 9",
+    "int.big 5 12 0 1 -1", "int64 9007199254740992 -1 0", "unsafe true",
+    "iface if(TS(TE),sl(if(Tb,t),if(Tf64,q511_1_0),if(Ts,s78),nil,if(TO,ob(u)),if(TS(TE),sl(if(Tf64,n1))),if(TM(TE),mp(s61,if(Tf64,n1))),if(TS(Tu8),sl(n1,n2)),if(TS(Tf64),sl(q511_1_0))))",
+    "iface.fn 42", "tag 6ec3a9 42 q255_0_0 1099511627776 2 f09f9880 42",
+    "tag.js " + "n\u00e9,42,0.25,1099511627776,2,2,10,big|count|fn|name|ratio|tags".encode("utf-8").hex(),
+    "wrapobj true", "makefunc 2,10,T", "wrapper 5,10,4,undefined,Add|Name|__internal_object__", "wrapper.back true 10", "expose 47,4,true", "stable true",
+    'struct.js {"A":1,"B":"x","D":{"0":65535},"E":{"k":true}}|Uint16Array', "nilslice true",
+]
+
+FINDING_PROBES = PROG_HEAD + """
+func main() {
+	ev := func(s string) *js.Object { return js.Global.Call("eval", s) }
+	// the sign of zero through every route from JavaScript to Go
+	println("float.accessor", num(ev("-0").Float()))
+	println("float.interface", num(ev("-0").Interface().(float64)))
+	js.Global.Set("fz", func(x float64) string { return num(x) })
+	println("float.param", ev("fz(-0)").String())
+	js.Global.Set("fs", func(xs []float64) string { return num(xs[0]) })
+	println("float.slice", ev("fs(new Float64Array([-0]))").String())
+	js.Global.Set("ident", func(x float64) float64 { return x })
+	println("float.roundtrip", ev("Object.is(ident(-0), -0)").Bool())
+	// nil map / nil slice round trips
+	js.Global.Set("mnil", func(m map[string]int) bool { return m == nil })
+	js.Global.Set("snil", func(s []int) bool { return s == nil })
+	js.Global.Set("mid", func(m map[string]int) map[string]int { return m })
+	println("nil.slice", ev("snil(null)").Bool())
+	println("nil.map", ev("mnil(null)").Bool())
+	println("nil.map.roundtrip", ev("mid(null) === null").Bool())
+	_, _, _, _, _ = zero, nan, pinf, ninf, negz
+}
+"""
+FINDING_EXPECT = ["float.accessor nz", "float.interface nz", "float.param nz", "float.slice nz", "float.roundtrip true",
+                  "nil.slice true", "nil.map true", "nil.map.roundtrip true"]
+FINDING_MODEL = ["float.accessor nz", "float.interface n0", "float.param n0", "float.slice n0", "float.roundtrip false",
+                 "nil.slice true", "nil.map false", "nil.map.roundtrip false"]
+FINDING_SIG = {"float.interface": SIG_NEGZERO, "float.param": SIG_NEGZERO, "float.slice": SIG_NEGZERO, "float.roundtrip": SIG_NEGZERO,
+               "nil.map": SIG_NILMAP, "nil.map.roundtrip": SIG_NILMAP}
+
+GUARD_PROG = """package main
+
+import "github.com/gopherjs/gopherjs/js"
+
+func main() {
+	c := make(chan int)
+	done := make(chan bool)
+	js.Global.Set("cb", func() {
+		defer func() {
+			if e := recover(); e != nil {
+				println("callback recovered:", e.(error).Error())
+			}
+		}()
+		%s
+		println("callback: not reached")
+	})
+	js.Global.Call("setTimeout", js.Global.Get("cb"), 0)
+	go func() {
+		// continues after the first timer has fired (woken through a later timer)
+		t := make(chan bool)
+		js.Global.Call("setTimeout", func() { go func() { t <- true }() }, 30)
+		<-t
+		%s
+		done <- true
+	}()
+	<-done
+	println("main: finished")
+}
+"""
+GUARD_SEND = ("c <- 7", 'select {\n\t\tcase v := <-c:\n\t\t\tprintln("goroutine: received", v)\n\t\tdefault:\n\t\t\tprintln("goroutine: nothing to receive")\n\t\t}')
+GUARD_RECV = ("println(<-c)", 'select {\n\t\tcase c <- 9:\n\t\t\tprintln("goroutine: sent")\n\t\tdefault:\n\t\t\tprintln("goroutine: nobody receiving")\n\t\t}')
+GUARD_MSG = "callback recovered: runtime error: cannot block in JavaScript callback, fix by wrapping code in goroutine"
+GUARD_EXPECT = {
+    "send": ([GUARD_MSG, "goroutine: nothing to receive", "main: finished"], "exit0"),
+    "recv": ([GUARD_MSG, "goroutine: nobody receiving", "main: finished"], "exit0"),
+}
+
+
 def program_tie(chk, tier, g):
-    pass
+    """(b) self-checking compiled programs (GopherJS + Node only: there is no native twin of package js); (c) the guard."""
+    from . import progs
+    rng = chk.rng
+    nprog = 6 if tier == "thorough" else 2
+    percase = 60 if tier == "thorough" else 40
+    jobs, meta = [], []
+    for k in range(nprog):
+        cases = []
+        while len(cases) < percase:
+            T = g.ty(rng.choice([0, 1, 2, 3]), domain=True)
+            cases.append((T, g.go(parse_sx(T), clean=False)))
+        jobs.append({"id": "ext%d" % k, "files": {"main.go": prog_ext(cases)}, "variants": ["plain", "minify"], "native": False, "timeout": 300})
+        meta.append(("ext", ["jsconv ext TE if(%s,%s)" % c for c in cases]))
+        jcases = []
+        while len(jcases) < percase:
+            j = g.js_any(3)
+            if "wr" in j or "jf" in j or "gf" in j:
+                continue
+            if any(abs(int(m)) > 9 * 10 ** 18 for m in re.findall(r"n(-?\d+)", j)):
+                continue                                   # the Go-side printer goes through int64
+            jcases.append(j)
+        jobs.append({"id": "iface%d" % k, "files": {"main.go": prog_iface(jcases)}, "variants": ["plain", "minify"], "native": False, "timeout": 300})
+        meta.append(("iface", ["jsconv int TE %s" % j for j in jcases]))
+    jobs.append({"id": "accessors", "files": {"main.go": ACCESSORS}, "variants": ["plain", "minify"], "native": False, "timeout": 300})
+    meta.append(("accessors", None))
+    jobs.append({"id": "findings", "files": {"main.go": FINDING_PROBES}, "variants": ["plain"], "native": False, "timeout": 300})
+    meta.append(("findings", None))
+    jobs.append({"id": "guard-send", "files": {"main.go": GUARD_PROG % GUARD_SEND}, "variants": ["plain"], "native": False, "timeout": 300})
+    meta.append(("guard", "send"))
+    jobs.append({"id": "guard-recv", "files": {"main.go": GUARD_PROG % GUARD_RECV}, "variants": ["plain"], "native": False, "timeout": 300})
+    meta.append(("guard", "recv"))
+    res = progs.run_jobs(jobs, par=4)
+    # a timed-out job is re-run alone before anything is concluded from it (the machine is shared and loaded)
+    for i, (j, r) in enumerate(zip(jobs, res)):
+        if any(run.get("class") == "timeout" for run in r["runs"].values()):
+            res[i] = progs.run_jobs([dict(j, timeout=900)], par=1)[0]
+    for j, r, (kind, info) in zip(jobs, res, meta):
+        for v in j["variants"]:
+            obs = progs.observe_js(r["runs"][v])
+            if obs[1].startswith("compile-error"):
+                raise RuntimeError("generated program %s does not compile: %s" % (j["id"], obs[1]))
+            if obs[1] == "timeout":
+                raise RuntimeError("program %s timed out twice (loaded machine?)" % j["id"])
+            tie = "program-%s:%s" % (kind, v)
+            if kind in ("ext", "iface"):
+                model = C.run_driver("C11", info)
+                lines = obs[0]
+                if obs[1] != "exit0" or len(lines) != len(info):
+                    chk.add_mismatch(tie, json.dumps({"id": j["id"], "source": j["files"]["main.go"][:3000]}), impl=json.dumps([lines[-3:], obs[1]]),
+                                     spec="%d lines, exit0" % len(info))
+                    continue
+                chk.compare(tie, info, lines, model, kind=lambda o, a, kind=kind: "program:" + kind)
+            elif kind in ("accessors", "findings"):
+                exp = ACCESSORS_EXPECT if kind == "accessors" else FINDING_EXPECT
+                modelp = exp if kind == "accessors" else FINDING_MODEL
+                chk.extra[kind + "_lines"] = len(exp)
+                if obs[1] != "exit0" or len(obs[0]) != len(exp):
+                    chk.add_mismatch(tie, json.dumps({"id": j["id"]}), impl=json.dumps([obs[0][-4:], obs[1]]), spec="%d lines, exit0" % len(exp))
+                    continue
+                ops = ["%s line %d %s" % (kind, i, e.split(" ")[0]) for i, e in enumerate(exp)]
+                chk.compare(tie, ops, obs[0], modelp, spec=exp,
+                            signature=lambda o, a, c, modelp=modelp: FINDING_SIG.get(o.split(" ")[3]) if a == modelp[int(o.split(" ")[2])] else None,
+                            kind=lambda o, a, kind=kind: "program:" + kind)
+            else:
+                exp = GUARD_EXPECT[info]
+                chk.add_case(tie, info, kindkey="program:guard")
+                if (obs[0], obs[1]) != exp:
+                    sig = None
+                    raised = len(obs[0]) >= 1 and obs[0][0] == exp[0][0]
+                    if raised and obs[1].startswith("jserror:TypeError") and "is not a function" in obs[1]:
+                        sig = SIG_GUARD_SEND if info == "send" else SIG_GUARD_RECV
+                    chk.add_mismatch(tie, json.dumps({"id": j["id"], "source": j["files"]["main.go"]}), impl=json.dumps([obs[0], obs[1]]),
+                                     spec=json.dumps(exp), signature=sig)
+    chk.extra["programs"] = len(jobs)
+
 
 
 def rt_expected(T, v):
@@ -756,4 +1319,4 @@ def replay(path):
     for o, a, b in zip(ops, impl, model):
         print("%s\n  impl : %s\n  model: %s" % (o, a, b))
         bad += a != b
-    return 1
+    return 1 if bad else 0
